@@ -1,4 +1,6 @@
 mod term;
+mod c30;
+mod c25;
 mod c12;
 mod c33;
 mod c37;
@@ -7,6 +9,7 @@ mod c38;
 mod c36;
 mod crash;
 mod c02;
+mod c04;
 mod c34;
 mod c32;
 mod c39;
@@ -34,6 +37,8 @@ fn main() {
         "C31" => c31::run(seed, n, &mut out),
         "C05" => c05::run(seed, n, &mut out),
         "C02" => c02::run(seed, n, _extra.first().map(|s| s.as_str()).unwrap_or("quick"), &mut out),
+        "C03" => c04::run_c03(seed, n, _extra.first().map(|s| s.as_str()).unwrap_or("quick"), &mut out),
+        "C04" => c04::run(seed, n, _extra.first().map(|s| s.as_str()).unwrap_or("quick"), &mut out),
         "C01" => c01::run(seed, n, &mut out),
         "C06" => c01::run_c06(seed, n, &mut out),
         "C35" => c35::run(seed, n, &mut out),
@@ -46,6 +51,8 @@ fn main() {
         "C37" => c37::run(seed, n, &mut out),
         "C33" => c33::run(seed, n, &mut out),
         "C12" => c12::run(seed, n, &mut out),
+        "C25" => c25::run(seed, n, &mut out),
+        "C30" => c30::run(seed, n, &mut out),
         _ => { eprintln!("unknown property {}", prop); std::process::exit(2); }
     }
 }
